@@ -187,10 +187,13 @@ def standard_plans(tier, borrow_limit_orders=True):
             dict(plan="pair", depth=3, bp=8, qp=2, second="all", split=16),
             dict(plan="cross", depth=3, npairs=2, bp=8, qp=2, namounts=1, kinds=["stop", "stop_limit"], second="all"),
         ]
+        # (measured: a depth-3 loans history costs 10-70 CPU minutes per order class; the thorough tier runs the limit
+        # orders that use the loan - buy with borrowed quote, sell of borrowed base - and market orders without flags)
         for ab in (False, True):
             for ar in (False, True):
-                for lsym in ("USD", "BTC"):
+                for lsym, sd in (("USD", "buy"), ("BTC", "sell")):
                     ps.append(dict(plan="loans", depth=3, bp=8, qp=2, lend="margin", namounts=1, closes=CLOSES,
+                                   kinds=["limit"] if (ab or ar) else ["limit", "market"], sides=[sd],
                                    auto_borrow=ab, auto_repay=ar, loan_symbol=lsym, min_interest="0.01", split=16))
     return ps
 
@@ -207,7 +210,8 @@ BOUNDS_QUICK = (
 BOUNDS_THOROUGH = (
     "quick plans plus: fee schemes none / percentage without minimum, precisions (2,0), (8,8), 3 amounts, "
     "VolumeShareImpact at depth 3, pair with the second order from all 8 classes followed by cancels and a bar, loans "
-    "at depth 3 (repay twice | cancel | second loan, then a bar) with minimum interest 0.01")
+    "at depth 3 (repay twice | cancel | second loan, then a bar; limit orders on the side that uses the loan, market "
+    "orders without flags) with minimum interest 0.01, cross plan at depth 3 with stop / stop-limit orders")
 BASE_OUTSIDE = ["histories deeper than the stated plans", "more than two traded pairs per history in this check "
                 "(C03 runs three pairs through the whole dispatcher stack)", "Decimal context rounding at 28 digits"]
 BASE_ASSUMPTIONS = [
